@@ -687,6 +687,10 @@ func (loader) Shrink(plan any) []func() any {
 			mod(func(q *LoaderPlan) { q.Loads[i].Tree, q.Loads[i].Code = false, false })
 		}
 	}
+	for _, c := range core.DropChunks(p.World.Ghosts, 0) {
+		c := c
+		mod(func(q *LoaderPlan) { q.World.Ghosts = c })
+	}
 	// drop trailing packages that nothing imports any more, and decoy files
 	for pi := len(p.World.Pkgs) - 1; pi >= 1; pi-- {
 		pi := pi
